@@ -104,9 +104,12 @@ def dispatcher_skeleton(cx, path, delegate):
             c = switch_cond(body, du, b.term)
             if c.kind == "discr" and any(k == "call" and o is g for k, o in slm.origins(c.place)):
                 some = variant_edge(b.term, 1); none = variant_edge(b.term, 0)
-                ok_guard = bool(registered) and all(cfg.edge_dominates(some, t.bb) for t in registered)
+                g_ok = bool(registered) and all(cfg.edge_dominates(some, t.bb) for t in registered)
                 nf = [t for t in body.calls("=reply_interface_not_found")]
-                ok_else = len(nf) == 1 and cfg.edge_dominates(none, nf[0].bb) and any(k == "arg" and o == 2 for k, o in Slice(body, du, extra_pass=("=into",)).origins(nf[0].args[1]))
+                e_ok = len(nf) == 1 and cfg.edge_dominates(none, nf[0].bb) and any(k == "arg" and o == 2 for k, o in Slice(body, du, extra_pass=("=into",)).origins(nf[0].args[1]))
+                # the lookup result may be tested more than once on the way (a combinator written out in the view and the match on
+                # its result): the one that decides both exits is the routing decision
+                if (g_ok and e_ok) or not (ok_guard and ok_else): ok_guard, ok_else = g_ok, e_ok
         out["index-guarded"] = ok_guard; out["else-not-found-names-iface"] = ok_else
         out["delegates"] = len(builtin) == 1 and len(registered) == 1 and any(k == "call" and o is g for k, o in slm.origins(registered[0].args[0]))
         return body, out
@@ -228,7 +231,8 @@ def r4(cx):
     if get_form:
         # `self.ifaces.get(key)` (possibly `.map(|i| i.get_description())`): Some -> that interface's text, None -> InvalidParameter("interface")
         clos = [x for x in body.unit.bodies if x.promoted is None and x.parent in ([body.path] + [p for p, _ in getattr(body, "inlined", [])])]
-        reg = reg + [t for c in clos for t in c.calls("=get_description") if "VarlinkService" not in t.callee.resolved]
+        spliced = {d[0] for d in getattr(body, "desugared", [])}        # closures already written out in the view
+        reg = reg + [t for c in clos if c.path not in spliced for t in c.calls("=get_description") if "VarlinkService" not in t.callee.resolved]
         g = gt[0]
         f = []
         for l in ref_chain(du, g.args[0].place.l):
